@@ -14,6 +14,7 @@ package main
 // w:numId, note ids) are compared by what they resolve to in their own package.
 
 import (
+	"strconv"
 	"crypto/sha256"
 	"encoding/hex"
 	"fmt"
@@ -728,6 +729,46 @@ func c03Enumerate(tier string, visit func(part string, names []string, depth int
 			}
 		}
 	}
+	// (2b) narrow and deep on one table: every sequence of 3 (thorough 4) calls over the calls that change what
+	// the first cell holds (text, paragraphs, nested table, clearing) and the structure around it (merges,
+	// row/column edits) - content that is added, cut back and added again
+	{
+		prefixes := []string{"SetCellText(0,0,", "SetCellFormattedText(0,0, a ,all)", "AddCellParagraph(0,0,", "ClearCellParagraphs(0,0)", "AddNestedTable(0,0,1x1)",
+			"ClearCellContent(0,0)", "MergeCellsHorizontal(0,0,1)", "MergeCellsVertical(0,2,0)", "InsertRow(1)", "DeleteColumn(0)"}
+		var ds []c03Feat
+		for _, pre := range prefixes {
+			for _, f := range fs {
+				if f.kind == "table" && strings.HasPrefix(f.name, pre) {
+					ds = append(ds, f)
+					break
+				}
+			}
+		}
+		n := 3
+		if tier == "thorough" {
+			n = 4
+		}
+		total := 1
+		for i := 0; i < n; i++ {
+			total *= len(ds)
+		}
+		for c := 0; c < total; c++ {
+			seq := make([]c03Feat, n)
+			names := make([]string, n)
+			v := c
+			for i := n - 1; i >= 0; i-- {
+				seq[i] = ds[v%len(ds)]
+				names[i] = seq[i].name
+				v /= len(ds)
+			}
+			visit("deep-table", names, n, func(x *c03Ctx) {
+				c03Base(x, "table")
+				for _, f := range seq {
+					f.f(x)
+				}
+			})
+		}
+	}
 	// (3) sequences, one text per document
 	es := c03Elems()
 	maxLen := 3
@@ -1257,6 +1298,8 @@ func c03Exec(build func(x *c03Ctx), dir string) c03Result {
 		res.outcome = "build-panic:" + panicClass(p)
 		return res
 	}
+	// what the caller's own document object holds, read through its exported fields before anything is saved
+	memBefore, memPanic := c03MemView(x.doc)
 	pkg, bytes1, errS := c03SaveRead(x.doc)
 	if errS != "" {
 		res.outcome = "save1-failed"
@@ -1297,6 +1340,15 @@ func c03Exec(build func(x *c03Ctx), dir string) c03Result {
 			res.viol = append(res.viol, rep.Violation{Sig: fmt.Sprintf("open-failed|%s|%s", c03CycleName(cyc), c03ErrClass(errS)), Clause: "open-failed", What: fmt.Sprintf("cycle %d: the library cannot open its own output: %s", cyc, errS)})
 			outcome = append(outcome, fmt.Sprintf("c%d:open-failed", cyc))
 			break
+		}
+		if cyc == 1 && !memPanic {
+			// the document object the caller built and the object Open returns for its save must hold the same
+			// visible content (a writer that silently leaves something out is invisible to a comparison of saves)
+			if memAfter, p2 := c03MemView(d); !p2 {
+				if what, detail := c03MemDiff(memBefore, memAfter); what != "" {
+					res.viol = append(res.viol, rep.Violation{Sig: "built-vs-reopened|" + what, Clause: "built-vs-reopened", What: "the document object built through the API and the object Open returns for its save differ: " + detail, Expect: memBefore, Got: memAfter})
+				}
+			}
 		}
 		pk, nb, errS := c03SaveRead(d)
 		if errS != "" {
@@ -1342,6 +1394,108 @@ func c03Exec(build func(x *c03Ctx), dir string) c03Result {
 		res.outcome += " (api-error)"
 	}
 	return res
+}
+
+// c03MemView lists the visible content of a document object through exported fields only: per body element its
+// kind; per paragraph its text (tabs, breaks and pictures marked); per table its rows, per cell the span and
+// vertical-merge marks, the texts of its non-empty paragraphs and, recursively, its nested tables.
+func c03MemView(d *document.Document) (out []string, panicked bool) {
+	var para func(p *document.Paragraph) string
+	para = func(p *document.Paragraph) string {
+		var b strings.Builder
+		for _, r := range p.Runs {
+			b.WriteString(r.Text.Content)
+			if r.Break != nil {
+				b.WriteString("<br>")
+			}
+			if r.Drawing != nil {
+				b.WriteString("<img>")
+			}
+		}
+		return b.String()
+	}
+	var table func(t *document.Table) string
+	table = func(t *document.Table) string {
+		var b strings.Builder
+		b.WriteString("tbl{")
+		for ri := range t.Rows {
+			b.WriteString("row(")
+			for ci := range t.Rows[ri].Cells {
+				c := &t.Rows[ri].Cells[ci]
+				b.WriteString("[")
+				if c.Properties != nil {
+					if c.Properties.GridSpan != nil && c.Properties.GridSpan.Val != "" && c.Properties.GridSpan.Val != "1" {
+						b.WriteString("span=" + c.Properties.GridSpan.Val + " ")
+					}
+					if c.Properties.VMerge != nil {
+						v := c.Properties.VMerge.Val
+						if v == "" {
+							v = "continue"
+						}
+						b.WriteString("vmerge=" + v + " ")
+					}
+				}
+				for pi := range c.Paragraphs {
+					if s := para(&c.Paragraphs[pi]); s != "" {
+						b.WriteString(strconv.Quote(s))
+					}
+				}
+				for ti := range c.Tables {
+					b.WriteString(" nested:" + table(&c.Tables[ti]))
+				}
+				b.WriteString("]")
+			}
+			b.WriteString(")")
+		}
+		b.WriteString("}")
+		return b.String()
+	}
+	if p := guard(func() {
+		for _, e := range d.Body.Elements {
+			switch v := e.(type) {
+			case *document.Paragraph:
+				out = append(out, "p "+strconv.Quote(para(v)))
+			case *document.Table:
+				out = append(out, table(v))
+			case *document.SectionProperties:
+			default:
+				out = append(out, kindOf(e))
+			}
+		}
+	}); p != "" {
+		return nil, true
+	}
+	return out, false
+}
+
+// c03MemDiff names the first difference of two views: what = class of the difference, detail = explanation.
+func c03MemDiff(a, b []string) (what, detail string) {
+	if len(a) != len(b) {
+		return "element-count", fmt.Sprintf("%d body elements built, %d after reopening (%q / %q)", len(a), len(b), a, b)
+	}
+	for i := range a {
+		if a[i] == b[i] {
+			continue
+		}
+		ka, kb := strings.SplitN(a[i], " ", 2)[0], strings.SplitN(b[i], " ", 2)[0]
+		switch {
+		case strings.HasPrefix(a[i], "tbl{") && strings.HasPrefix(b[i], "tbl{"):
+			what = "table-content"
+			if strings.Count(a[i], "nested:") != strings.Count(b[i], "nested:") {
+				what = "nested-table-count"
+			} else if strings.Count(a[i], "row(") != strings.Count(b[i], "row(") || strings.Count(a[i], "[") != strings.Count(b[i], "[") {
+				what = "table-shape"
+			} else if strings.Count(a[i], "span=") != strings.Count(b[i], "span=") || strings.Count(a[i], "vmerge=") != strings.Count(b[i], "vmerge=") {
+				what = "table-merges"
+			}
+		case ka != kb:
+			what = "element-kind|" + ka + "->" + kb
+		default:
+			what = "paragraph-text"
+		}
+		return what, fmt.Sprintf("body element %d: built %s, after reopening %s", i, a[i], b[i])
+	}
+	return "", ""
 }
 
 func c03CycleName(c int) string {
